@@ -126,10 +126,14 @@ claim("C10",
       text="Proof (recursive contracts, any tree shape by induction on subtree height, any number of rows): node.predict_proba gives every row the probabilities of "
            "the classifier at which its path ends (ghost P unfolded one level; boolean-mask gather/scatter lemmas); node.predict is 1 iff that probability of "
            "class 1 is >= 0.5; node.decision_path marks in the row's matrix line exactly the node indices on that same path (same test probability > "
-           "threshold) and writes nothing else (ghost inverse of the injective row-index vector, derived for masked sub-vectors from the mask's rank). "
-           "Bounded: fitted trees for 4 seeds x 4 depths x 3 algorithms: rows sum to one, predict vs classes_, node indices distinct and < n_nodes_, "
+           "threshold) and writes nothing else (ghost inverse of the injective row-index vector, derived for masked sub-vectors from the mask's rank); "
+           "node.fit (real recursion through the closure _fit_side, decreases max_depth - depth): the subtree is well numbered - indices in [index, "
+           "returned value], parents first, all of `above` before all of `below` - with child depth = depth + 1 <= max_depth, and _fit_parallel makes the root "
+           "node 0 at depth 1 with n_nodes_ = returned value + 1: by induction all node indices are distinct and below n_nodes_, no node deeper than "
+           "max_depth. Bounded: fitted trees for 4 seeds x 4 depths x 3 algorithms: rows sum to one, predict vs classes_, node indices distinct and < n_nodes_, "
            "depth <= max_depth, get_leaves_index, path recomputed from the member classifiers, ties at the threshold (stump members).",
-      note="Member classifiers obey the estimator protocol (assumed). fit / fit_improve / get_leaves_index are bounded only.",
+      note="Member classifiers obey the estimator protocol (assumed). fit_improve (intercept search) is an assumed step of fit; get_leaves_index and rows "
+           "summing to one are bounded only. The numbering may have gaps (n_nodes_ can exceed the number of nodes) - not a violation of the property.",
       technique="deductive verification: recursive contracts over ghost functions P and onpath, mask lemmas; z3 5.1 raced with z3 4.8.12")
 claim("C07",
       text="Proof, for strategy 'distance' (and 'distance_p' of balanced predictions): _constraint_association_distance - the real three nested loops - gives "
